@@ -144,7 +144,7 @@ func TestC16_RoundTrip(t *testing.T) {
 		if err := sdBefore.VerifyAll(b.Content); err != nil {
 			t.Fatalf("harness error: generated value does not verify: %v", err)
 		}
-		op := rapid.SampledFrom([]string{"roundtrip", "roundtrip", "detach"}).Draw(t, "op")
+		op := rapid.SampledFrom([]string{"roundtrip", "roundtrip", "detach", "resign"}).Draw(t, "op")
 		rec.Case(fmt.Sprintf("%x|%s", sha256.Sum256(b.DER), op), op+"/"+b.ContentType, nontrivial(b))
 		if nontrivial(b) {
 			rec.Sample(op, map[string]any{"op": op, "classes": b.Classes, "der_len": len(b.DER)})
@@ -154,6 +154,38 @@ func TestC16_RoundTrip(t *testing.T) {
 			fail(t, test, op, b.Classes, b.DER, "relic cannot parse a valid SignedData: %v", err)
 		}
 		content := b.Content
+		if op == "resign" {
+			// the way a catalog is re-signed: a new signature over the parsed ContentInfo,
+			// which must be emitted exactly as it was read
+			if sdBefore.Detached {
+				op = "roundtrip"
+			} else {
+				rk := rapid.SampledFrom([]string{"rsa2048b", "p256b"}).Draw(t, "resign_key")
+				sb := pkcs7.NewBuilder(keys.Key(rk), []*x509.Certificate{keys.SelfSigned("resigner "+rk, keys.Key(rk), nil)}, crypto.SHA256)
+				if err := sb.SetContentInfo(psd.Content.ContentInfo); err != nil {
+					fail(t, test, op, b.Classes, b.DER, "SetContentInfo: %v", err)
+				}
+				npsd, err := sb.Sign()
+				if err != nil {
+					fail(t, test, op, b.Classes, b.DER, "re-signing: %v", err)
+				}
+				out, err := npsd.Marshal()
+				if err != nil {
+					fail(t, test, op, b.Classes, b.DER, "Marshal: %v", err)
+				}
+				_, sdNew := regionsOf(t, out)
+				if sdNew.EContentType != sdBefore.EContentType {
+					fail(t, test, op, b.Classes, b.DER, "re-signed value names content type %s, the original %s", sdNew.EContentType, sdBefore.EContentType)
+				}
+				if got, want := sdNew.EContent.Raw, sdBefore.EContent.Raw; !bytes.Equal(want, got) {
+					fail(t, test, op, b.Classes, b.DER, "re-signed value carries different content bytes: %x... (was %x...)", clipb(got), clipb(want))
+				}
+				if err := sdNew.VerifyAll(content); err != nil {
+					fail(t, test, op, b.Classes, b.DER, "the new signature does not verify over the carried content: %v", err)
+				}
+				return
+			}
+		}
 		if op == "detach" {
 			if b.Has("content:data-detached") {
 				op = "roundtrip"
@@ -201,6 +233,13 @@ func TestC16_RoundTrip(t *testing.T) {
 		}
 		opensslEvery++
 	})
+}
+
+func clipb(b []byte) []byte {
+	if len(b) > 24 {
+		return b[:24]
+	}
+	return b
 }
 
 func opensslVerify(p7, content []byte, detached bool) string {
